@@ -363,6 +363,9 @@ class Body:
                 for a in t['args']:
                     if a['k'] == 'const' and 'fn' in a:
                         self.fn_values.append((cs.point, a['fn']))
+                for x in t['callee'].get('extra_nodes', []):
+                    # std calls a local From::from on our behalf (Into::into / `?`): may-edge
+                    self.fn_values.append((cs.point, {'node': x, 'path': 'From::from', 'name': 'From::from (implicit conversion)'}))
         self.call_at = {cs.point: cs for cs in self.calls}
         self._idom = None
 
